@@ -125,6 +125,28 @@ Theorem C16_library_text_kept : forall s,
 Proof. exact OneLine.one_line_keeps_text. Qed.
 Print Assumptions C16_library_text_kept.
 
+(* flattening is idempotent (a text flattened by one layer and again by the next), never makes the
+   text longer, and distributes over concatenation unless the cut falls inside a CR LF pair (the
+   hypothesis is needed: witness below) *)
+Theorem C16_library_text_flatten_idempotent : forall s, OneLine.one_line (OneLine.one_line s) = OneLine.one_line s.
+Proof. exact OneLine.one_line_idem. Qed.
+Print Assumptions C16_library_text_flatten_idempotent.
+
+Theorem C16_library_text_never_longer : forall s, (length (OneLine.one_line s) <= length s)%nat.
+Proof. exact OneLine.one_line_length. Qed.
+Print Assumptions C16_library_text_never_longer.
+
+Theorem C16_library_text_concatenation : forall a b,
+  (forall a', a = a' ++ [OneLine.CR] -> forall b', b = OneLine.LF :: b' -> False) ->
+  OneLine.one_line (a ++ b) = OneLine.one_line a ++ OneLine.one_line b.
+Proof. exact OneLine.one_line_app. Qed.
+Print Assumptions C16_library_text_concatenation.
+
+Theorem C16_library_text_concatenation_cut_refuted :
+  exists a b, OneLine.one_line (a ++ b) <> OneLine.one_line a ++ OneLine.one_line b.
+Proof. exact OneLine.one_line_app_cut_refuted. Qed.
+Print Assumptions C16_library_text_concatenation_cut_refuted.
+
 (* before 040a767 only LF was replaced: `cron: "@x\ry"` put a CR into the message *)
 Theorem C16_library_text_old_refuted : exists s, existsb OneLine.is_break (OneLine.one_line_old s) = true.
 Proof. exact OneLine.one_line_old_refuted. Qed.
